@@ -59,6 +59,7 @@ def main():
                 cases.append({"op": "in_unit", "a": {"m": m, "u": [[None, s1, 1]]}, "b": [[None, s2, 1]], "g": [s1, None, s2, None]})
     # comparisons across scales (equality / ordering agree with the kelvin values)
     cmps = []
+    ties = []
     for _ in range(150 if quick else 1500):
         s1, s2 = rng.choice(scales), rng.choice(scales)
         p1, p2 = rng.choice([None, None, "milli", "kilo"]), rng.choice([None, None, "milli", "kilo"])
@@ -81,7 +82,10 @@ def main():
                     if kx != ky and abs(kx - ky) < Fraction(1, 1000) * max(abs(kx), abs(ky), 1): continue
                     for op in ("eq", "lt", "le", "gt", "ge"):
                         want = {"eq": kx == ky, "lt": kx < ky, "le": kx <= ky, "gt": kx > ky, "ge": kx >= ky}[op]
-                        if kx == ky and (s1 != s2 or p1 != p2): continue      # exact ties reached through floats may round either way
+                        if kx == ky and (s1 != s2 or p1 != p2):
+                            # exact ties reached through floats may round either way; whichever way, the six operators agree with one another
+                            if op == "eq": ties.append(len(cmps)); cmps += [{"op": o_, "a": {"m": ["int", str(x), "1"], "u": [[p1, s1, 1]]}, "b": {"m": ["int", str(x), "1"], "u": [[p2, s2, 1]]}, "tie": True} for o_ in ("eq", "ne", "lt", "gt", "le", "ge")]
+                            continue
                         for kind in ("int", "float"):
                             cmps.append({"op": op, "a": {"m": ["int", str(x), "1"], "u": [[p1, s1, 1]]}, "b": {"m": [kind, str(x), "1"], "u": [[p2, s2, 1]]}, "want": want})
     # differences across scales: a - b is a minus b expressed on a's scale (and + likewise), result on a's scale
@@ -182,8 +186,16 @@ def main():
             c.violation(f"affine:{s1}->{s2}" + (":prefixed" if p1 or p2 else ""), f"{float(m)} {p1 or ''}{s1} -> {p2 or ''}{s2}: got {float(got)}, exact affine definition gives {float(want)}", repl)
         if cs["a"]["m"][0] == "dec" and res["m"][0] != "dec":
             c.violation("decimal-lost", "Decimal magnitude became " + res["m"][0], repl)
+    for t0 in ties:
+        R = {cmps[t0 + j]["op"]: res_k[t0 + j] for j in range(6)}
+        if any("bool" not in v for v in R.values()):
+            c.violation("compare:tie-raises", f"comparing one temperature read on two scales raised: {R}", {"cases": cmps[t0:t0 + 6], "implementation": R}); continue
+        g = lambda k: R[k]["bool"]
+        if g("ne") == g("eq") or [g("lt"), g("eq"), g("gt")].count(True) != 1 or g("le") != (g("lt") or g("eq")) or g("ge") != (g("gt") or g("eq")):
+            c.violation("compare:tie-incoherent", f"the six comparisons of one temperature read on two scales contradict one another: { {k: g(k) for k in R} }", {"cases": cmps[t0:t0 + 6], "implementation": R})
     for cs, res in zip(cmps, res_k):
         c.count(cs)
+        if cs.get("tie"): continue
         if "want" in cs:
             want = cs["want"]; d = "same reading on two scales"
         else:
